@@ -97,8 +97,23 @@ def check_truncate(case):
     chunks = [make_chunk(s) for s in case['chunks']]
     ctx = {'codec': codec, 'chunks': case['chunks']}
     original = b''.join(chunks)
-    comp = b''.join(compress(codec, chunks, ctx))
-    points = range(len(comp)) if len(comp) <= 2048 else sorted(set(list(range(0, 64)) + list(range(len(comp) - 64, len(comp))) + list(range(0, len(comp), 97))))
+    comp_chunks = compress(codec, chunks, ctx)
+    comp = b''.join(comp_chunks)
+    if len(comp) <= 2048:
+        points = range(len(comp))
+    elif len(comp) <= 200000:
+        points = sorted(set(list(range(0, 64)) + list(range(len(comp) - 64, len(comp))) + list(range(0, len(comp), 97))))
+    else:
+        # big streams: the boundaries of the emitted compressed items (where a writer that died had flushed last) and their
+        # neighbours, the two ends, and a sparse sweep
+        ends, q = [], 0
+        for c in comp_chunks:
+            q += len(c)
+            ends += [q - 1, q, q + 1]
+        points = sorted(set(t for t in ends + list(range(0, 16)) + list(range(len(comp) - 16, len(comp))) + list(range(0, len(comp), 50021))
+                            if 0 <= t < len(comp)))
+        if len(points) > 400:
+            points = points[::len(points) // 400 + 1] + points[-20:]
     for t in points:
         pre = comp[:t]
         for parts in ([pre], [pre[:t // 2], pre[t // 2:]], [pre[i:i + 1] for i in range(t)] if t <= 300 else [pre[:1], pre[1:]]):
@@ -112,7 +127,7 @@ def check_truncate(case):
             got = b''.join(r.items)
             if original[:len(got)] != got:
                 raise Violation('%s decompress emitted bytes that are not a prefix of the original before failing' % codec, cut=t, **ctx)
-    return {'nontrivial': len(comp) >= 32, 'labels': [codec, 'points=%d' % (len(points) // 100 * 100)]}
+    return {'nontrivial': len(comp) >= 32, 'labels': [codec, 'points=%d' % (len(points) // 100 * 100)] + (['input>=1MiB'] if len(original) >= 2 ** 20 else [])}
 
 
 @st.composite
@@ -175,7 +190,7 @@ def rt_case(draw):
     chunks = draw(chunk_specs(big))
     if big and draw(st.integers(0, 3)) == 0:
         # streams whose COMPRESSED size passes half a megabyte / a megabyte (incompressible input of that size)
-        chunks = chunks[:2] + [[draw(st.sampled_from([300000, 524288, 600000])), 'rand', draw(st.integers(0, 999))] for _ in range(draw(st.integers(2, 3)))]
+        chunks = chunks[:2] + [[draw(st.sampled_from([300000, 524288, 600000, 1200000])), 'rand', draw(st.integers(0, 999))] for _ in range(draw(st.integers(2, 3)))]
     return {'codec': draw(st.sampled_from(['gzip', 'zstd'])), 'chunks': chunks, 'cuts': sorted(cuts)}
 
 
@@ -183,6 +198,9 @@ def rt_case(draw):
 def trunc_case(draw):
     n = draw(st.sampled_from([0, 1, 2, 3]))
     chunks = [[draw(st.sampled_from([0, 1, 30, 200, 900])), draw(st.sampled_from(KINDS)), draw(st.integers(0, 999))] for _ in range(n)]
+    if draw(st.integers(0, 11)) == 0:
+        # more than a megabyte of input in several items (compressors that checkpoint / flush on a byte budget)
+        chunks = [[draw(st.sampled_from([300000, 400000, 600000])), draw(st.sampled_from(['rand', 'text', 'mixed'])), draw(st.integers(0, 999))] for _ in range(draw(st.integers(3, 5)))]
     return {'codec': draw(st.sampled_from(['gzip', 'zstd'])), 'chunks': chunks}
 
 
